@@ -147,3 +147,23 @@ Theorem C03_float32_field : forall en d rest pre base sk cx p cx2 p2 o, length d
             build (CFormat en Ff) (VFloat x) cx2 p2 o = Ok (VFloat x, oapp o d).
 Proof. exact float32_parse_then_build. Qed.
 Print Assumptions C03_float32_field.
+
+(* Values that are not integers have no integer encoding: every integer field refuses them with its own error class, whatever int() would
+   have made of them (floats, numeric strings, byte strings, None, lists, containers).   [proofs/PrimFacts.v] *)
+Theorem C03_integer_fields_refuse_non_integers : forall obj cx p o, int_of_val obj = None ->
+  (forall len s sw, build (CBytesInt len s sw) obj cx p o = Err EInteger (Some p)) /\
+  (forall len s sw, build (CBitsInt len s sw) obj cx p o = Err EInteger (Some p)) /\
+  build CVarInt obj cx p o = Err EInteger (Some p) /\
+  build CZigZag obj cx p o = Err EInteger (Some p) /\
+  (forall en f, fcode_float f = false -> build (CFormat en f) obj cx p o = Err EFormatField (Some p)).
+Proof. exact integer_fields_refuse_non_integers. Qed.
+Print Assumptions C03_integer_fields_refuse_non_integers.
+
+Theorem C03_int_of_val_only_ints : forall v, int_of_val v <> None -> exists z, v = VInt z \/ exists b, v = VBool b /\ z = (if b then 1 else 0)%Z.
+Proof. exact int_of_val_only_ints. Qed.
+Print Assumptions C03_int_of_val_only_ints.
+
+Example C03_ex_non_integers :
+  int_of_val (VFloat 0) = None /\ int_of_val (VStr [49; 50]%N) = None /\ int_of_val (VBytes [x33]) = None /\ int_of_val VNone = None /\
+  int_of_val (VList [VInt 1]) = None /\ int_of_val (VDict []) = None.
+Proof. repeat split. Qed.
